@@ -151,3 +151,16 @@ func normCompare(op string, l, r *Expr) (string, *Expr, *Expr) {
 	}
 	return op, l, r
 }
+
+// Flipped returns the same comparison written the other way round (a < b as
+// b > a); rules that look for one spelling try both.
+func (f Fact) Flipped() Fact {
+	if f.R == nil {
+		return f
+	}
+	op, ok := swapOp[f.Op]
+	if !ok {
+		return f
+	}
+	return Fact{Op: op, L: f.R, R: f.L, G: f.G}
+}
